@@ -392,6 +392,7 @@ func run(b *harness.B) {
 		b.MaxOf("declared_wire_types_in_source", int64(len(decl)))
 		b.MaxOf("excluded_types", int64(len(wirereg.Excluded)))
 		checkGolden(b)
+		checkHighLeafIndex(b, b.SubRng("highleaf"))
 	}
 	// reference hashes (all batches, cheap)
 	if p := safely(func() { checkHashes(b, b.SubRng("hashes"), b.Pick(30, 2000)) }); p != "" {
